@@ -170,6 +170,7 @@ fn run_fault_enumeration(scn: &Scenario) -> RunOut {
 pub fn run_scenario(scn: &Scenario) -> RunOut {
     match &scn.body {
         Body::Store(s) => match scn.check.as_str() {
+            "C19" if s.threads.len() > 1 => run_sim(scn, |ctx, scn| store::run_conc(ctx, store_of(scn))),
             "C01" | "C02" | "C05" | "C12" | "C13" | "C14" | "C19" => run_sim(scn, |ctx, scn| store::run_seq(ctx, store_of(scn))),
             "C03" => run_sim(scn, |ctx, scn| store::run_crash(ctx, store_of(scn), false)),
             "C09" => run_sim(scn, |ctx, scn| store::run_crash(ctx, store_of(scn), true)),
